@@ -15,7 +15,7 @@
     literal); a field that is missing or does not parse as i64 makes the comparison false, as
     [NumericCondition::evaluate_at] does. *)
 From Coq Require Import NArith ZArith List Bool.
-From Snel Require Import Base.Bytes.
+From Snel Require Import Base.Bytes Gen.Params.
 Import ListNotations.
 Open Scope N_scope.
 
@@ -230,8 +230,10 @@ Fixpoint latest_before (ta : N) (cur : event) (rest : list event) : event * list
   end.
 
 (** [match_preceded_by]: when [ts_b < ts_a] the latest such b is paired with a, [a] advances and
-    the b pointer stays on that b; otherwise the *b* pointer advances. *)
-Fixpoint preceded_by (w : event -> event -> bool) (la : list event) : list event -> list pair :=
+    the b pointer stays on that b; otherwise one pointer advances: the *b* pointer in the pinned
+    tree, the a pointer with the proposed repair ([adv_a], regenerated from the Rust text as
+    [seq_pb_else_advances_a]). *)
+Fixpoint preceded_by_gen (adv_a : bool) (w : event -> event -> bool) (la : list event) : list event -> list pair :=
   match la with
   | [] => fun _ => []
   | a :: la' =>
@@ -241,10 +243,12 @@ Fixpoint preceded_by (w : event -> event -> bool) (la : list event) : list event
         | b :: lb' =>
             if ts b <? ts a then
               let '(l, rest) := latest_before (ts a) b lb' in
-              (if w a l then [(a, l)] else []) ++ preceded_by w la' (l :: rest)
+              (if w a l then [(a, l)] else []) ++ preceded_by_gen adv_a w la' (l :: rest)
+            else if adv_a then preceded_by_gen adv_a w la' lb
             else go lb'
         end
   end.
+Definition preceded_by := preceded_by_gen seq_pb_else_advances_a.
 
 Definition match_group (lk : link) (w : event -> event -> bool) (g : group) : list pair :=
   match g_a g, g_b g with
